@@ -139,6 +139,9 @@ pub fn exec(ctx: &mut Ctx, case: &Case) {
             fam::enum_strings(ALPHA, case.n[0] as usize, case.n[1], |s| {
                 ctx.evals += 1;
                 let t = format!("{}{}", pre, s);
+                if ctx.want_sample() {
+                    ctx.note_sample(Case::new("one").arg(&t));
+                }
                 check(ctx, t.as_bytes());
             });
         }
